@@ -103,6 +103,12 @@ def run_impl(case):
         for n, q in list(nsobj.items()):
             q.required = not q.required
             q.help = 'mutated'
+            # a mutable default is edited in place (not re-assigned)
+            dv = q.default if hasattr(q, 'has_default') and q.has_default() else None
+            if isinstance(dv, list):
+                dv.append('mutated')
+            elif isinstance(dv, dict):
+                dv['mutated'] = True
             if isinstance(q, plumpy.PortNamespace):
                 mutate(q)
                 q.dynamic = not q.dynamic
@@ -250,6 +256,8 @@ def src_trees():
                    req=False, dyn=True, help='top'))
     t.append(pg.ns([('p', L(vld='rej_3')), ('q', L(dflt=('call', 'a')))], vld='rej_has_x'))
     t.append(pg.ns([], vt=['int', 'str']))
+    # mutable defaults, on a top-level port and inside a nested namespace: the copies must not share them with the source
+    t.append(pg.ns([('params', L(dflt=('val', {'tol': 1, 'tags': ['a']}))), ('opts', pg.ns([('grid', L(dflt=('val', [1, 2, 3])))]))]))
     return t
 
 
